@@ -3209,6 +3209,16 @@ class SEVM:
                         if not reachable_targets:
                             raise InvalidJumpDestError(dst)
 
+                        # the jump fails for any other destination: that case gets its own
+                        # path carrying the error, unless it is proved impossible
+                        invalid_cond = And(
+                            [dst.as_z3() != target for target in ex.pgm.valid_jumpdests()]
+                        )
+                        if ex.check(invalid_cond) != unsat:
+                            err_ex = self.create_branch(ex, invalid_cond, ex.pc)
+                            err_ex.context.output.error = InvalidJumpDestError(dst)
+                            stack.push(err_ex)
+
                         for target in reachable_targets:
                             cond = dst.as_z3() == target
                             new_ex = self.create_branch(ex, cond, target)
